@@ -13,6 +13,7 @@ import (
 	"fmt"
 	"go/token"
 	"go/types"
+	"regexp"
 	"strings"
 
 	"golang.org/x/tools/go/ssa"
@@ -20,8 +21,9 @@ import (
 
 type cfgPath struct {
 	Blocks []*ssa.BasicBlock
-	Atoms  map[string]bool // atom name -> value assumed on this path
-	Order  []string        // atoms in the order they were assumed (with polarity prefix)
+	Atoms  map[string]bool         // atom name -> value assumed on this path
+	Order  []string                // atoms in the order they were assumed (with polarity prefix)
+	Ret    map[*ssa.Call]ssa.Value // results of inlined calls (single-result callees) on this path
 }
 
 func (p *cfgPath) Has(name string, val bool) bool {
@@ -42,6 +44,12 @@ func (p *cfgPath) HasMatching(pred func(name string, val bool) bool) bool {
 // PhiValue resolves a phi along the path (the edge taken into its block).
 func (p *cfgPath) Resolve(v ssa.Value) ssa.Value {
 	for i := 0; i < 10; i++ {
+		if c, ok := v.(*ssa.Call); ok && p.Ret != nil {
+			if rv, bound := p.Ret[c]; bound {
+				v = rv
+				continue
+			}
+		}
 		ph, ok := v.(*ssa.Phi)
 		if !ok {
 			return v
@@ -66,17 +74,24 @@ func (p *cfgPath) Resolve(v ssa.Value) ssa.Value {
 }
 
 type pathExplorer struct {
+	prog    *Program
 	pv      *Prov
 	fn      *ssa.Function
 	epochOf map[ssa.Instruction]int
 	Limit   int
 	Trunc   bool
+	// Inline: follow calls of small helper functions of the same package (their paths are spliced
+	// into the caller's, their branch atoms renamed to the caller's values)
+	Inline  bool
+	Atomic  map[*ssa.Function]bool // callees that are never spliced (anchors of the rule at hand)
+	depth   int
+	inlined map[*ssa.Function]bool
 }
 
 func newPathExplorer(p *Program, fn *ssa.Function) *pathExplorer {
 	pv := NewProv(p)
 	pv.NoInline = true
-	pe := &pathExplorer{pv: pv, fn: fn, epochOf: map[ssa.Instruction]int{}, Limit: 20000}
+	pe := &pathExplorer{prog: p, pv: pv, fn: fn, epochOf: map[ssa.Instruction]int{}, Limit: 20000, inlined: map[*ssa.Function]bool{}}
 	return pe
 }
 
@@ -134,15 +149,27 @@ func mayWriteRepoState(c *ssa.Call) bool {
 }
 
 func readsMemory(e *Expr) bool {
-	r := false
-	e.Walk(func(x *Expr) bool {
-		switch x.Op {
-		case "field", "load", "global", "lookup", "index":
-			r = true
+	if e == nil {
+		return false
+	}
+	switch e.Op {
+	case "load", "global", "lookup", "index":
+		return true
+	case "field":
+		// a field of a struct *value* (call result, by-value parameter, local copy) is not a memory read
+		if len(e.Args) == 1 && e.Args[0].Type != nil {
+			if _, isPtr := e.Args[0].Type.Underlying().(*types.Pointer); !isPtr {
+				return readsMemory(e.Args[0])
+			}
 		}
 		return true
-	})
-	return r
+	}
+	for _, a := range e.Args {
+		if readsMemory(a) {
+			return true
+		}
+	}
+	return false
 }
 
 // AtomName: canonical name of a branch condition.
@@ -155,25 +182,172 @@ func (pe *pathExplorer) AtomName(cond ssa.Value, pol bool) (string, bool) {
 	return name, a.Pol
 }
 
+// inlinable: a small loop-free helper of the same package (not the function itself).
+func (pe *pathExplorer) inlinable(c *ssa.Call) *ssa.Function {
+	if !pe.Inline || pe.depth >= 2 {
+		return nil
+	}
+	g := staticCallee(c.Common())
+	if g == nil || g == pe.fn || pe.Atomic[g] || g.Pkg != pe.fn.Pkg || g.Blocks == nil || len(g.Blocks) > 14 || hasLoop(g) || g.Signature.Results().Len() > 1 {
+		return nil
+	}
+	if g.Object() != nil && g.Object().Exported() {
+		return nil // API functions are anchors of their own
+	}
+	return g
+}
+
+// Funcs: the explored function and the helpers whose paths were spliced into it.
+func (pe *pathExplorer) Funcs() []*ssa.Function {
+	out := []*ssa.Function{pe.fn}
+	for g := range pe.inlined {
+		out = append(out, g)
+	}
+	return out
+}
+
+type pathState struct {
+	blocks []*ssa.BasicBlock
+	atoms  map[string]bool
+	order  []string
+	ret    map[*ssa.Call]ssa.Value
+}
+
+func (st pathState) withAtom(name string, val bool) pathState {
+	na := map[string]bool{}
+	for x, y := range st.atoms {
+		na[x] = y
+	}
+	na[name] = val
+	pfx := "+"
+	if !val {
+		pfx = "-"
+	}
+	return pathState{st.blocks, na, append(append([]string{}, st.order...), pfx+name), st.ret}
+}
+
+// spliceCall returns the states after following every feasible path of the helper called by c.
+func (pe *pathExplorer) spliceCall(c *ssa.Call, g *ssa.Function, st pathState) []pathState {
+	sub := newPathExplorer(pe.prog, g)
+	sub.depth = pe.depth + 1
+	sub.Inline = true
+	sub.Atomic = pe.Atomic
+	sub.Limit = 2000
+	pe.inlined[g] = true
+	// rename the helper's parameters to the caller's argument expressions
+	type ren struct {
+		re *regexp.Regexp
+		to string
+	}
+	var rens []ren
+	for i, prm := range g.Params {
+		if i < len(c.Common().Args) {
+			arg := (&cfgPath{Blocks: st.blocks, Ret: st.ret}).Resolve(c.Common().Args[i])
+			rens = append(rens, ren{regexp.MustCompile(`param:` + regexp.QuoteMeta(prm.Name()) + `\b`), strings.ReplaceAll(pe.pv.Of(arg).String(), "$", "$$")})
+		}
+	}
+	base := pe.epoch(c)
+	rename := func(name string) string {
+		for _, r := range rens {
+			name = r.re.ReplaceAllString(name, r.to)
+		}
+		// epochs of the helper count from the call
+		if i := strings.LastIndex(name, "@"); i >= 0 {
+			var k int
+			if _, err := fmt.Sscanf(name[i+1:], "%d", &k); err == nil {
+				name = fmt.Sprintf("%s@%d", name[:i], k+base+1)
+			}
+		}
+		return name
+	}
+	var out []pathState
+	for _, sp := range sub.Paths() {
+		retInstr, isRet := sp.End().(*ssa.Return)
+		if !isRet {
+			continue // the helper panics: the caller's path ends there (panics are inventoried by other rules)
+		}
+		ns := pathState{append(append([]*ssa.BasicBlock{}, st.blocks...), sp.Blocks...), st.atoms, st.order, st.ret}
+		feasible := true
+		for _, o := range sp.Order {
+			val := o[0] == '+'
+			name := rename(o[1:])
+			if old, ok := ns.atoms[name]; ok {
+				if old != val {
+					feasible = false
+					break
+				}
+				continue
+			}
+			ns = ns.withAtom(name, val)
+		}
+		if !feasible {
+			continue
+		}
+		nr := map[*ssa.Call]ssa.Value{}
+		for k, v := range st.ret {
+			nr[k] = v
+		}
+		for k, v := range sp.Ret {
+			nr[k] = v
+		}
+		if len(retInstr.Results) == 1 {
+			nr[c] = sp.Resolve(retInstr.Results[0])
+		}
+		ns.ret = nr
+		out = append(out, ns)
+	}
+	for g2 := range sub.inlined {
+		pe.inlined[g2] = true
+	}
+	if sub.Trunc {
+		pe.Trunc = true
+	}
+	return out
+}
+
 // Paths enumerates the feasible acyclic paths from the entry to every block
 // that ends in a Return or Panic.
 func (pe *pathExplorer) Paths() []*cfgPath {
 	var out []*cfgPath
 	n := 0
-	var walk func(b *ssa.BasicBlock, blocks []*ssa.BasicBlock, atoms map[string]bool, order []string)
-	walk = func(b *ssa.BasicBlock, blocks []*ssa.BasicBlock, atoms map[string]bool, order []string) {
+	var walk func(b *ssa.BasicBlock, st pathState)
+	var finish func(b *ssa.BasicBlock, st pathState)
+	walk = func(b *ssa.BasicBlock, st pathState) {
 		n++
 		if n > pe.Limit {
 			pe.Trunc = true
 			return
 		}
-		blocks = append(append([]*ssa.BasicBlock{}, blocks...), b)
+		st.blocks = append(append([]*ssa.BasicBlock{}, st.blocks...), b)
+		// helpers called in this block, in order
+		states := []pathState{st}
+		for _, in := range b.Instrs {
+			c, ok := in.(*ssa.Call)
+			if !ok {
+				continue
+			}
+			g := pe.inlinable(c)
+			if g == nil {
+				continue
+			}
+			var next []pathState
+			for _, s0 := range states {
+				next = append(next, pe.spliceCall(c, g, s0)...)
+			}
+			states = next
+		}
+		for _, s0 := range states {
+			finish(b, s0)
+		}
+	}
+	finish = func(b *ssa.BasicBlock, st pathState) {
+		blocks, atoms, order := st.blocks, st.atoms, st.order
 		switch last := b.Instrs[len(b.Instrs)-1].(type) {
 		case *ssa.Return, *ssa.Panic:
-			out = append(out, &cfgPath{Blocks: blocks, Atoms: atoms, Order: order})
+			out = append(out, &cfgPath{Blocks: blocks, Atoms: atoms, Order: order, Ret: st.ret})
 		case *ssa.Jump:
 			if !b.Succs[0].Dominates(b) {
-				walk(b.Succs[0], blocks, atoms, order)
+				walk(b.Succs[0], st)
 			}
 		case *ssa.If:
 			for k, s := range b.Succs {
@@ -181,18 +355,19 @@ func (pe *pathExplorer) Paths() []*cfgPath {
 					continue // back edge
 				}
 				// a constant phi condition is resolved by the path
-				cp := &cfgPath{Blocks: blocks}
+				cp := &cfgPath{Blocks: blocks, Ret: st.ret}
 				cond := cp.Resolve(last.Cond)
 				if bv, ok := constBool(cond); ok {
 					if bv == (k == 0) {
-						walk(s, blocks, atoms, order)
+						walk(s, st)
 					}
 					continue
 				}
-				// x == nil / x != nil where x is a phi that the path resolves to nil or to a fresh object
+				// x == nil / x != nil where x is a phi (or the result of a spliced helper) that the path resolves to nil or to a fresh object
 				if bo, ok := cond.(*ssa.BinOp); ok && (bo.Op == token.EQL || bo.Op == token.NEQ) && isNilConst(bo.Y) {
-					if _, isPhi := bo.X.(*ssa.Phi); isPhi {
-						x := cp.Resolve(bo.X)
+					_, isPhi := bo.X.(*ssa.Phi)
+					x := cp.Resolve(bo.X)
+					if isPhi || x != bo.X {
 						known, isNil := false, false
 						switch xv := x.(type) {
 						case *ssa.Const:
@@ -207,7 +382,7 @@ func (pe *pathExplorer) Paths() []*cfgPath {
 						if known {
 							val := isNil == (bo.Op == token.EQL)
 							if val == (k == 0) {
-								walk(s, blocks, atoms, order)
+								walk(s, st)
 							}
 							continue
 						}
@@ -222,20 +397,11 @@ func (pe *pathExplorer) Paths() []*cfgPath {
 							}
 							if old, ok := atoms[name]; ok {
 								if old == a.Pol {
-									walk(s, blocks, atoms, order)
+									walk(s, st)
 								}
 								continue
 							}
-							na := map[string]bool{}
-							for x2, y := range atoms {
-								na[x2] = y
-							}
-							na[name] = a.Pol
-							pfx := "+"
-							if !a.Pol {
-								pfx = "-"
-							}
-							walk(s, blocks, na, append(append([]string{}, order...), pfx+name))
+							walk(s, st.withAtom(name, a.Pol))
 							continue
 						}
 					}
@@ -245,23 +411,14 @@ func (pe *pathExplorer) Paths() []*cfgPath {
 					if old != val {
 						continue // infeasible
 					}
-					walk(s, blocks, atoms, order)
+					walk(s, st)
 					continue
 				}
-				na := map[string]bool{}
-				for x, y := range atoms {
-					na[x] = y
-				}
-				na[name] = val
-				pfx := "+"
-				if !val {
-					pfx = "-"
-				}
-				walk(s, blocks, na, append(append([]string{}, order...), pfx+name))
+				walk(s, st.withAtom(name, val))
 			}
 		}
 	}
-	walk(pe.fn.Blocks[0], nil, map[string]bool{}, nil)
+	walk(pe.fn.Blocks[0], pathState{atoms: map[string]bool{}})
 	return out
 }
 
